@@ -634,6 +634,25 @@ def replayable(case):
     return {k: v for k, v in case.items() if not k.startswith("_")}
 
 
+def near_flat_variant(case, rng, k):
+    """The same survey with NEARLY FLAT weights: every respondent weighs 1 + j * 2^-20, j in -8..8 (a raking
+    weight on an already balanced sample), so that every weighted cell is within 1e-5 (relative) of - but not
+    equal to - its unweighted count.  (After seeded changes C01-11 / C02-11, found independently by two
+    agents: `np.allclose(weighted, unweighted)` instead of list equality decides that such a cube is
+    'not weighted'.)  The weights are dyadic, so the exact model and the float64 code agree to the last bit
+    and a deviation of 1e-6 is far outside the comparator's 1e-9."""
+    import copy
+    c = {kk: copy.deepcopy(v) for kk, v in case.items() if not kk.startswith("_")}
+    c["k"] = k
+    c["near_flat_weights"] = True
+    c["survey"]["weighted"] = True
+    for r in c["survey"]["resp"]:
+        j = rng.choice([-8, -5, -3, -1, 1, 2, 3, 5, 8])
+        r["w"] = str(Fraction(2 ** 20 + j, 2 ** 20))
+    finish_case(c)
+    return c
+
+
 # ------------------------------------------------------------------------------------
 # running the implementation
 # ------------------------------------------------------------------------------------
